@@ -133,8 +133,9 @@ Print Assumptions client_table_spec.
 
 (* every client method, any arguments: the request it builds, routed through the server model, performs exactly the
    operation of that method with the arguments given, and the client returns what the server answered.
-   Guard (client_guard, explicit): CID / peer ID / metric name are single non-empty path segments, the IPFS path is
-   "/<ipfs|ipns|ipld>/<rest>" (rest non-empty); Pin's CID is not the string "recover" and Recover's CID not one of
+   Guard (client_guard, explicit): CID / peer ID / metric name are single non-empty path segments other than "." / "..", the IPFS
+   path is "/<ipfs|ipns|ipld>/<rest>" (rest non-empty, without empty or dot segments; any characters otherwise: the client escapes
+   the path and the metric name since fix-S27 and the server's unescape is the trusted inverse); Pin's CID is not the string "recover" and Recover's CID not one of
    "ipfs" / "ipns" / "ipld" (no CID string is: POST /pins/recover is RecoverAll, POST /pins/ipfs/recover a path).
    rt_ok: the server's parsers give back what the client's printers were given (instantiated by C08 below). *)
 Theorem client_faithful c e o f :
@@ -226,6 +227,13 @@ Example client_example_pin :
   client_run c e = mk_cres [("Cluster.Pin", ["QmCid"; "o"; "-1"], false)] 0 (Some "{}") false
   /\ client_sent c e "o" "" = [("Cluster.Pin", ["QmCid"; "o"; "-1"])].
 Proof. vm_compute. split; reflexivity. Qed.
+
+(* S27 (fixed): a metric name that needs URL escaping is inside the guard and arrives as given *)
+Example client_example_escaped :
+  let c := mk_ccall "Metrics" false "" "" None "a%41?b#c" None (Some ["a%41?b#c"]) in
+  let e := mk_cenv None None None None None None None None "" [] "[]" in
+  plain_seg "a%41?b#c" /\ client_run c e = mk_cres [("PeerMonitor.LatestMetrics", ["a%41?b#c"], false)] 0 (Some "[]") false.
+Proof. cbv zeta. split; [repeat split; try discriminate | vm_compute; reflexivity]. Qed.
 
 Example client_example_guards :
   let c := mk_ccall "PinPath" false "QmCid" "QmPeer" (Some "/ipfs/QmCid/a/b/") "ping" (Some "") None in
